@@ -240,6 +240,9 @@ def rand_run(rng, fmt, kind, *, calls=None, iters=None, value_classes=None, dist
     if cb is not None and cb[0] == 'builtin' and rng.random() < 0.5:
         # the callback instantiated with the checkpoint's base class (without the engine), as the library's examples do
         s.insert(-1, ['cbbase', 1]); classes.append('callback_on_base_class')
+    if cb is not None and cb[0] == 'builtin' and rng.random() < 0.5:
+        # one callback object for all the runs of the case (std::ref) instead of a fresh copy per run
+        s.insert(-1, ['cbref', 1]); classes.append('callback_object_shared_between_runs')
     return s, classes, {'kind': kind, 'dims': dims, 'channels': channels, 'calls': cl_calls}
 
 KINDS = ['plain', 'vegas', 'mc']
@@ -692,6 +695,7 @@ def gen_C12(c, rng, tier):
                     s, cl3 = mpi_variant(rng, s, info); cl += cl3
                 c.add(t, 'run', s, classes=cl + cl2, nontrivial=iters >= 2, info=info)
     gen_C12_resumed(c, rng, tier)
+    gen_C12_shared_callback(c, rng, tier)
     gen_C12_cancelling(c, rng, tier)
     gen_C12_mpi(c, rng, tier)
 
@@ -725,6 +729,22 @@ def gen_C12_mpi(c, rng, tier):
                 s, cl, info = rand_run(rng, fmt, kind, iters=iters, calls=[6, 12, 20], cb=['builtin', rng.choice([1, 2, 3, 0]), fmt.rtok(target)], poly=True, finite_only=True, dists=[])
                 s, cl3 = mpi_variant(rng, s, info, worlds=(2, 3, 5))
                 c.add(t, 'run', s, classes=cl + cl3 + ['cb_builtin', 'target_positive'], info=info)
+
+def gen_C12_shared_callback(c, rng, tier):
+    """ONE callback object (as with std::ref) sees several checkpoints in a row: a run, the checkpoint rolled back or reloaded, and further
+    runs with other calls - its decision must depend on the checkpoint it is given only, not on what it saw before"""
+    for t in TYPES:
+        fmt = FMTS[t]
+        for kind in KINDS:
+            for _ in range(scale(tier, 4, 30)):
+                iters = rng.choice([3, 4, 5])
+                target = rng.choice([Fraction(1, 4), Fraction(1, 10), Fraction(1, 20), Fraction(2, 5), Fraction(3, 20)])
+                s, cl, info = rand_run(rng, fmt, kind, iters=iters, calls=[4, 9, 16, 30], cb=['builtin', rng.randrange(4), fmt.rtok(target)], poly=True, finite_only=True, dists=[])
+                calls = info['calls']; j = rng.randint(0, 1)
+                other = [rng.choice([5, 12, 40]) for _ in range(iters + 2)]
+                ops = [['run', calls], ['rollback', j]] + ([['reload']] if rng.random() < 0.4 else []) + [['run', other], ['dump'], ['rollback', 0], ['run', calls[::-1] + [50, 50]], ['dump']]
+                s = [e for e in s if e[0] not in ('ops', 'cbref')] + [['cbref', 1], ['ops', ops]]
+                c.add(t, 'run', s, classes=cl + ['one_callback_object_for_several_checkpoints', 'cb_builtin', 'target_positive'], info=info)
 
 def gen_C12_resumed(c, rng, tier):
     """the built-in callback with a positive target on resumed checkpoints: the stop decision must use all results, also those
